@@ -779,6 +779,16 @@ func (l *lexer) popToken() token {
 }
 
 func (l *lexer) pushToken(t token) {
+	if (l.head+1)%len(l.tokens) == l.tail {
+		// full: one more would make it look empty and lose every pending
+		// token (a string of many "+" parts is emitted in one go)
+		grown := make([]token, 0, 2*len(l.tokens))
+		for i := l.tail; i != l.head; i = (i + 1) % len(l.tokens) {
+			grown = append(grown, l.tokens[i])
+		}
+		l.tail, l.head = 0, len(grown)
+		l.tokens = grown[:cap(grown)]
+	}
 	l.tokens[l.head] = t
 	l.head = (l.head + 1) % len(l.tokens)
 }
